@@ -35,6 +35,29 @@ FINDINGS = {
         "jobs (C01), admits jobs without the break event (C02) and in two "
         "shapes emits a fork with a single branch (C05)",
         "examples": ["A loop[B loop[C xor[D break|E]]]"]},
+    "KF-PARTIAL-EVIDENCE": {
+        "root_cause": "merge validation and gate inference on incomplete "
+        "evidence (_check_merge_is_correct / calculate_logic_gates): with "
+        "only some executions of an OR fork (or one long job of a loop) the "
+        "predecessor sets of the merge event cannot be matched to the "
+        "inferred gate, the merge is not confirmed and the following event "
+        "is copied into every branch followed by detach; one single-job "
+        "sample raises 'Event sets incoming is not set'",
+        "what_fails": "learning from a proper subset of the executions of a "
+        "definition (C01 quantifies over all finite job sets): the emitted "
+        "diagram rejects jobs it was learned from, e.g. A or[B|C|D] E "
+        "learned from the three two-branch executions only",
+        "examples": ["A or[B|C|D] E  (jobs {B,C}, {B,D}, {C,D})",
+                     "A loop[B or[C|D]] E  (single job B C B C+D E)"]},
+    "KF-EXT-BREAK-FORK": {
+        "root_cause": "break handling when the non-break alternative of the "
+        "loop body's XOR is itself a fork (bunched logic): the XOR is emitted "
+        "with the break case only and the fork is placed after it",
+        "what_fails": "extended scope (bunched forks, outside fragment F): "
+        "loop whose body XOR has a break branch and a branch that starts "
+        "with a fork: 'switch' with one case (C05) and evidence rejected "
+        "(C01)",
+        "examples": ["A loop[B xor[C break|or[D|E]]]"]},
     "KF-CORPUS-KILL-MERGE": {
         "root_cause": "merge-point selection in the walk: a kill/detach "
         "branch inside a nested AND whose surviving branch merges on the "
@@ -91,12 +114,34 @@ def multi_break(seq):
     return False
 
 
-def classify(name, defn):
+def classify(name, defn, inp=None):
+    fid = classify_structure(name, defn)
+    if fid is None and inp is not None:
+        if inp.get("mode") == "c01sub" and name == "F":
+            return "KF-PARTIAL-EVIDENCE"
+        if name == "FB" and _nbreaks_all(defn) >= 1:
+            return "KF-EXT-BREAK-FORK"
+    return fid
+
+
+def _nbreaks_all(seq):
+    n = 0
+    for it in seq:
+        if it[0] == 'break':
+            n += 1
+        elif it[0] == 'loop':
+            n += _nbreaks_all(it[1])
+        elif it[0] in ('and', 'or', 'xor'):
+            n += sum(_nbreaks_all(b) for b in it[1])
+    return n
+
+
+def classify_structure(name, defn):
     if name and "kill_with_merge_on_parent" in name:
         return "KF-CORPUS-KILL-MERGE"
     if name and "loop_with_2_breaks_one_leads_to_other" in name:
         return "KF-CORPUS-2BREAKS"
-    if name and name not in ("F", "F+"):
+    if name and name not in ("F", "F+", "K", "FB", "FS"):
         return None
     if nested_break(defn):
         return "KF-NESTED-BREAK"
@@ -114,7 +159,7 @@ def main():
             r = json.loads(line)
             inp = r["input"]
             defn = dsl.to_tuple(inp["defn"])
-            fid = classify(inp.get("name"), defn)
+            fid = classify(inp.get("name"), defn, inp)
             if fid is None:
                 unclassified.append((prop, r["what"][:200]))
                 continue
